@@ -589,7 +589,8 @@ impl Vec3A {
     #[must_use]
     pub fn try_normalize(self) -> Option<Self> {
         let rcp = self.length_recip();
-        if rcp.is_finite() && rcp > 0.0 {
+        // a subnormal squared length is too imprecise to normalize with
+        if rcp.is_finite() && rcp > 0.0 && self.length_squared() >= f32::MIN_POSITIVE {
             Some(self * rcp)
         } else {
             None
@@ -607,7 +608,8 @@ impl Vec3A {
     #[must_use]
     pub fn normalize_or(self, fallback: Self) -> Self {
         let rcp = self.length_recip();
-        if rcp.is_finite() && rcp > 0.0 {
+        // a subnormal squared length is too imprecise to normalize with
+        if rcp.is_finite() && rcp > 0.0 && self.length_squared() >= f32::MIN_POSITIVE {
             self * rcp
         } else {
             fallback
@@ -634,7 +636,8 @@ impl Vec3A {
     pub fn normalize_and_length(self) -> (Self, f32) {
         let length = self.length();
         let rcp = 1.0 / length;
-        if rcp.is_finite() && rcp > 0.0 {
+        // a subnormal squared length is too imprecise to normalize with
+        if rcp.is_finite() && rcp > 0.0 && self.length_squared() >= f32::MIN_POSITIVE {
             (self * rcp, length)
         } else {
             (Self::X, 0.0)
